@@ -168,6 +168,16 @@ func (m *monitor) buildOrGetRemote(n *node, ctx context.Context, id, via string)
 				map[string]any{"node": n.idx, "id": w.label(id), "via": via, "status_before": statusName(pre), "storage_before": preSt})
 		}
 	}
+	if !preSt && postSt {
+		// the fetch created the storage: did it also move the tombstone backwards
+		// (the look inside the fetch window saw the status the deleter had written)?
+		nm := m.per[n.idx]
+		if prev, now := nm.status[id], n.status(id); prev == headstorage.DeletedStatusDeleted && now < prev {
+			m.violate("fetch-in-flight:tombstone-reset:deleted->"+statusName(now), "the storage creation of a fetch that was in flight when the id was deleted moved its tombstone status backwards",
+				map[string]any{"node": n.idx, "id": w.label(id), "via": via, "status_inside_window": statusName(prev), "status_after": statusName(now)})
+			nm.status[id] = now
+		}
+	}
 	if err == nil && !preSt && postSt && obj != nil && obj.Parent != "" {
 		m.lateChild(n, obj, parentPre, "fetch")
 	}
